@@ -168,7 +168,8 @@ def poc_fit_constant_line(force, ret_details=False):
 
     cp = np.nan
     details = {}
-    if force.size > 4:  # 3 fit parameters
+    # (constant data cannot be normalized: no contact point)
+    if force.size > 4 and np.max(force) > np.min(force):  # 3 fit parameters
         # normalize force
         fmin = np.min(force)
         fptp = np.max(force) - fmin
@@ -251,7 +252,8 @@ def poc_fit_constant_polynomial(force, ret_details=False):
 
     cp = np.nan
     details = {}
-    if force.size > 6:  # 5 fit parameters
+    # (constant data cannot be normalized: no contact point)
+    if force.size > 6 and np.max(force) > np.min(force):  # 5 fit parameters
         fmin = np.min(force)
         fptp = np.max(force) - fmin
         y = (force - fmin) / fptp
@@ -351,7 +353,8 @@ def poc_fit_line_polynomial(force, ret_details=False):
 
     cp = np.nan
     details = {}
-    if force.size > 7:  # 6 fit parameters
+    # (constant data cannot be normalized: no contact point)
+    if force.size > 7 and np.max(force) > np.min(force):  # 6 fit parameters
         fmin = np.min(force)
         fptp = np.max(force) - fmin
         y = (force - fmin) / fptp
@@ -363,7 +366,7 @@ def poc_fit_line_polynomial(force, ret_details=False):
         params.add('d', value=np.mean(y[:10]))
         params.add('x0', value=x0)
         # slope
-        params.add('m', value=y[x0]/x0)
+        params.add('m', value=y[x0]/max(x0, 1))
         # The polynomial fitting parameters are supposed to be
         # greater than zero (source?). We set the minimum to 1e-3 so
         # the fitting algorithm becomes more stable. Also, the initial
